@@ -5,7 +5,7 @@ from .gen import G, hx, mutate, pad_image
 from .props import (Prop, PROPS, kind_of, toks, entry_of, input_of, member_type, ok_str, err_str, ser, view_of,
                     gen_parse_inputs, gen_parse_mixed, gen_builds, ALL_LEAVES, ENTRY_MIN, ENTRY_PT, PT_ENTRY,
                     canon_fir_view, canon_fir_bytes, writes_of, size_n, entry_for_member, has_bad_token, perr_of,
-                    hdr_of_view, classes_of)
+                    hdr_of_view, classes_of, big_members)
 
 VARIANT_ENTRY = {'App': 'app', 'Bye': 'bye', 'Rr': 'rr', 'Sdes': 'sdes', 'Sr': 'sr', 'Tfb': 'tfb', 'Pfb': 'pfb',
                  'Unknown': 'unknown'}
@@ -244,6 +244,11 @@ class C11(Prop):
             elif c < 0.30:
                 b = b''
             out.append('parse compound %s' % hx(b))
+        # a tile with the largest length field (0xffff = 262144 bytes) alone and between two packets
+        big = bytes([0x80 | g.r.randrange(32), 204, 0xff, 0xff]) + g.rawbytes(8) + bytes(262144 - 12)
+        out.append('parse compound %s' % hx(big))
+        if tier != 'quick':
+            out.append('parse compound %s' % hx(bytes([0x80, 201, 0, 1]) + g.rawbytes(4) + big + bytes([0x80, 203, 0, 0])))
         # every tile on its own
         tiles = set()
         for line in out:
@@ -316,6 +321,31 @@ class C12(Prop):
             words = g.pick([1, 2, 3, 4, 6, 7, 8])
             b = bytes([0x80 | g.r.randrange(32), g.pick([199, 207, 0, 242, 255, 72, 77]), 0, words - 1]) + g.rawbytes(4 * words - 4)
             pairs.append(('unknown', b))
+        # every packet type with every count / subtype / format value 0..31 on a well-framed packet big enough
+        # for the typed parser's body: dispatch must not depend on the low five bits
+        sweep = []
+        for pt in [200, 201, 202, 203, 204, 205, 206, 199, 207]:
+            for cnt in range(32):
+                e = PT_ENTRY.get(pt, 'unknown')
+                total = {'sr': 28 + 24 * cnt, 'rr': 8 + 24 * cnt, 'bye': 4 + 4 * cnt}.get(e, 16)
+                if tier == 'quick' and e in ('sr', 'rr') and cnt not in (0, 1, 2, 31):
+                    continue
+                b = bytearray(g.rawbytes(total))
+                b[0], b[1] = 0x80 | cnt, pt
+                b[2], b[3] = ((total // 4 - 1) >> 8) & 0xff, (total // 4 - 1) & 0xff
+                if e == 'sdes':
+                    b[4:] = bytes(total - 4)    # chunks of zero SSRC with empty item lists
+                sweep.append(bytes(b))
+                if e not in ('sr', 'rr'):
+                    # the same header on the shortest packet of that type, and with the padding bit
+                    mn = ENTRY_MIN.get(e, 4)
+                    if mn + 4 * (cnt if e == 'bye' else 0) <= 12:
+                        sweep.append(bytes([0x80 | cnt, pt, 0, 2]) + g.rawbytes(8))
+                    sweep.append(bytes([0xa0 | cnt, pt, 0, 4]) + g.rawbytes(12) + bytes([0, 0, 0, 4]))
+        for b in sweep:
+            out.append('parse packet %s' % hx(b))
+            for t in self.ALL:
+                out.append('parse %s %s' % (t, hx(b)))
         for e, b in pairs:
             if g.chance(0.2) and len(b) >= 2:
                 b = b[:1] + bytes([g.pick([199, 207, 0, 255, 72, 73, 74, 75, 76, 77, 78, 200, 201, 202, 203, 204, 205, 206])]) + b[2:]
@@ -636,6 +666,11 @@ class C15(Prop):
             elif style == 'empty':
                 fci = bytearray()
             pad = g.pick([0, 0, 0, 4, 8, 12])
+            if g.chance(0.15):
+                # a padding count that is not a multiple of 4 (never written by the builders, accepted by the
+                # parsers): the FCI ends where the count says; the packet stays word aligned
+                pad = g.pick([1, 2, 3, 5, 6, 7])
+                fci = bytearray(fci) + bytearray(g.rawbytes((-len(fci) - pad) % 4))
             total = 12 + len(fci) + pad
             b = bytearray([0x80 | (0x20 if pad else 0) | fmt, 205 if kind == 'tfb' else 206]) + (total // 4 - 1).to_bytes(2, 'big')
             b += g.rawbytes(8) + fci
@@ -710,6 +745,20 @@ class C16(Prop):
             fir = lambda k: 'build - fb p 0 1 2 fir %d %s' % (k, ' '.join('%d 1' % i for i in range(k)))
             out += [fir(32765), fir(32766), fir(32767)]
         return out
+    def probes(self, tier):
+        # the FIR entry limit: 2 + 2k words must fit the 16-bit length field, i.e. k <= 32766 (coq/Spec/Ref.v
+        # fci_violations, C16_accepts_exactly_the_representable); 32767 entries take the extracted model tens of
+        # minutes (unary lengths), the implementation milliseconds
+        fir = lambda k: 'build - fb p 0 1 2 fir %d %s' % (k, ' '.join('%d 1' % i for i in range(k)))
+        def judge(k):
+            def f(a):
+                size = a.get('size', '')
+                if k <= 32766:
+                    return None if size == '(ok %d)' % (12 + 8 * k) else 'FIR with %d entries: calculate_size returned %s' % (k, size[:80])
+                return None if size == '(err (TooManyFir))' else 'FIR with %d entries (more than fit the length field): calculate_size returned %s' % (k, size[:80])
+            return f
+        ks = [32766, 32767] if tier == 'quick' else [32765, 32766, 32767, 32768, 40000]
+        return [(fir(k), judge(k), 'FIR entries <= 32766, Spec/Ref.v fci_violations') for k in ks]
     def relevant(self, line, impl, model):
         return kind_of(line) == 'build'
     def proj(self, line, obs):
@@ -742,7 +791,9 @@ class C19(Prop):
     known_classes = ('oversize',)
     def cases(self, g, tier, h):
         n = 400 if tier == 'quick' else 12000
-        out = []
+        out = ['build e0:aa ' + m for m in big_members(g, ['unk', 'custom'], tier)]
+        # a third-party packet above 64 KiB inside a compound
+        out.append('build e0:aa compound 2 rr 0 1 0 custom 199 4 0 0 %s' % ('00' * 65536))
         members = []
         for _ in range(n):
             m = g.custom(valid=not g.chance(0.1)) if g.chance(0.6) else g.unk(valid=not g.chance(0.1))
@@ -859,9 +910,13 @@ class C20(Prop):
         return 'hist %s %s %s end' % (wrap, init, ' '.join(fixed))
     def cases(self, g, tier, h):
         n = 150 if tier == 'quick' else 5000
+        return self.gen(g, n)
+    def gen(self, g, n, kinds=None):
         out = []
+        allk = ['sr', 'rr', 'app', 'bye', 'sdes', 'unk', 'fb', 'fb', 'bye', 'sdes']
+        pool = [k for k in allk if kinds is None or k in kinds] or allk
         for _ in range(n):
-            k = g.pick(['sr', 'rr', 'app', 'bye', 'sdes', 'unk', 'fb', 'fb', 'bye', 'sdes'])
+            k = g.pick(pool)
             pad = g.pad(valid=not g.chance(0.05))
             jp = lambda: str(g.pick([0, 4, 8, 252, 3]))
             j32 = lambda: str(g.u32())
@@ -1031,3 +1086,8 @@ class C20(Prop):
         return out
 
 PROPS['C20'] = C20()
+
+def history_cases(g, n, kinds=None):
+    """call histories (and their canonical builds) for the given builder kinds, as C20 generates them"""
+    return C20().gen(g, n, kinds)
+
